@@ -19,3 +19,22 @@ def params():
 
 def P(name, default):
     return params().get(name, default)
+
+
+_FINDINGS = None
+
+
+def KNOWN(fid):
+    """True when KNOWN_FINDINGS.json lists `fid` with status 'known' (and the exclusion is not switched off for the witness run).
+    A harness assumes away exactly the predicate of a listed finding; 'fixed' entries suppress nothing."""
+    global _FINDINGS
+    if os.environ.get('VERIF_NO_EXCLUDE'):
+        return False
+    if _FINDINGS is None:
+        p = os.path.join(os.path.dirname(os.path.dirname(os.path.abspath(__file__))), 'KNOWN_FINDINGS.json')
+        try:
+            with open(p) as fd:
+                _FINDINGS = json.load(fd).get('findings', [])
+        except (OSError, ValueError):
+            _FINDINGS = []
+    return any(f.get('id') == fid and f.get('status') == 'known' for f in _FINDINGS)
